@@ -41,6 +41,8 @@ BODY_CALLS = _BodyLog()
 @python.define
 def Body(a: int, fail: bool = False) -> int:
     BODY_CALLS.append(a)
+    if os.environ.get("VF_BODY_DIE") == "1":
+        os._exit(9)
     if fail:
         raise RuntimeError("body failed")
     return a + 1
